@@ -6,6 +6,7 @@ import (
 	"runtime"
 	"runtime/pprof"
 	"strings"
+	"sync"
 	"syscall"
 	"time"
 
@@ -23,6 +24,13 @@ type scenRow struct {
 	Alphabet    int    `json:"alphabet_keys"`
 	Tails       int64  `json:"continuations,omitempty"`
 	Exhaustive  bool   `json:"exhaustive"`
+}
+
+func tailsOf(rows []scenRow) (n int64) {
+	for _, r := range rows {
+		n += r.Tails
+	}
+	return
 }
 
 // runScenarios explores every scenario and aggregates.
@@ -61,6 +69,32 @@ func vacuityGuard(r *vk.Run, hist map[string]int64, need ...string) {
 		}
 	}
 }
+
+// histSink additionally keeps the "rebalance:*" outcome classes for the vacuity guard and the coverage map.
+type histSink struct {
+	Sink
+	mu   sync.Mutex
+	hist map[string]int64
+}
+
+func newHistSink(s Sink) *histSink { return &histSink{Sink: s, hist: map[string]int64{}} }
+
+func (h *histSink) Outcome(class string) {
+	if strings.HasPrefix(class, "rebalance:") {
+		h.mu.Lock()
+		h.hist[strings.TrimPrefix(class, "rebalance:")]++
+		h.mu.Unlock()
+	}
+	h.Sink.Outcome(class)
+}
+
+// Rebalancing steps that must have been executed — and therefore observed through every read API — at each scale.
+var (
+	needRebalanceA = []string{"leaf_split", "inner_h1_split", "root_split", "leaf_merge", "inner_h1_merge", "inner_h2_merge", "root_collapse",
+		"leaf_borrow_from_left", "leaf_borrow_from_right", "inner_h1_borrow_from_left", "inner_h1_borrow_from_right", "inner_h2_borrow_from_left"}
+	needRebalanceB = []string{"leaf_split", "root_split", "leaf_merge", "inner_h1_merge", "root_collapse",
+		"leaf_borrow_from_left", "leaf_borrow_from_right", "inner_h1_borrow_from_left", "inner_h1_borrow_from_right"}
+)
 
 // DumpPrefills prints the shapes of all scale-appropriate prefills (developer aid: `-dump` is passed after `--`).
 func DumpPrefills() {
@@ -200,7 +234,8 @@ func MainC23() {
 	if r.Thorough() {
 		aBudget, bBudget = 14*time.Minute, 10*time.Minute
 	}
-	sinkA := BudgetSink{Sink: VKSink{r}, Deadline: time.Now().Add(aBudget), Hit: &hitA}
+	histA := newHistSink(VKSink{r})
+	sinkA := BudgetSink{Sink: histA, Deadline: time.Now().Add(aBudget), Hit: &hitA}
 	t0 := time.Now()
 	rows, states, trans, ranges, underfull, exA := runScenarios(sinkA, c23Opts(ScenariosA(r.Thorough())), nil)
 	wallA := time.Since(t0).Seconds()
@@ -214,6 +249,16 @@ func MainC23() {
 	if ex, _ := covB["exhaustive_to_depth"].(bool); !ex {
 		exA = false
 	}
+	if exA && r.Violations() == 0 && os.Getenv("VERIF_ONLY") == "" { // complete run: every rebalancing step must have been exercised
+		vacuityGuard(r, histA.hist, needRebalanceA...)
+		hb := map[string]int64{}
+		if mb, ok := covB["rebalancing_steps"].(map[string]any); ok {
+			for k := range mb {
+				hb[k] = CovInt(mb, k)
+			}
+		}
+		vacuityGuard(r, hb, needRebalanceB...)
+	}
 
 	if len(rows) > 0 {
 		r.Sample(map[string]any{"scale": "A (B=4)", "example_scenario": rows[len(rows)-1]})
@@ -225,12 +270,16 @@ func MainC23() {
 		"minimum node occupancy is not asserted: the 90/10 append split legitimately creates 2-key leaves (counted as underfull_nodes)",
 		"accepted implementation freedoms: an idempotent re-save of identical contents may succeed or be refused; DeleteVersionsTo may refuse (then nothing may change)",
 		"in-memory DB (memdb); no fault injection (C27/C28 cover crashes)",
+		"hidden bookkeeping is part of the merging key: the orphan list persisted for every version (raw record) and the byte size of the uncommitted batch, so histories that differ only in what a later prune/commit will consume are both continued",
+		"continuation (tail.go): from every new state, and after every Rollback / LoadVersion(current) whether new or not, the fixed sequence [close snapshot, Rollback if refused, LoadVersion(latest)] SaveVersion Set(k) SaveVersion DeleteVersionsTo(v) for every retained v ascending, Reopen+Load is executed on the real tree with the observers after the 2nd save, each prune and the reopen; continuation states are not merged/expanded further",
+		"rebalancing steps are classified from the tree dumps before/after each Set/Remove (no instrumentation); a complete run must have exercised split/merge/borrow-left/borrow-right at leaf and inner level, root split and collapse at both scales (else HARNESS-ERROR)",
 	}
-	r.Finish("BFS over operation histories {Set,Remove,SaveVersion,Rollback,reopen+Load,LoadVersion(v),DeleteVersionsTo(v),GetImmutable(v)/Close} from prefill shapes; after EVERY transition all read APIs (Get/Has/Size/GetByIndex/GetWithIndex/Iterate) of the working tree, every retained version and the open snapshot are compared with a per-version sorted-map model, saved hashes must never change; on every new state structural invariants + independent hash recomputation + all (start,end) range iterators asc/desc",
+	r.Finish("BFS over operation histories {Set,Remove,SaveVersion,Rollback,reopen+Load,LoadVersion(v),DeleteVersionsTo(v),GetImmutable(v)/Close} from prefill shapes; after EVERY transition all read APIs (Get/Has/Size/GetByIndex/GetWithIndex/Iterate) of the working tree and the ordered contents + hash of every retained version and the open snapshot are compared with a per-version sorted-map model, saved hashes must never change; on every new state all read APIs on every retained version, GetByIndex for EVERY index, structural invariants + independent hash recomputation + all (start,end) range iterators asc/desc; from every new state and after every Rollback a save/save/prune-every-retained-prefix/reopen continuation with the same observers",
 		exA, map[string]any{
 			"states": states + statesB, "transitions": trans + transB, "traces_validated_against_impl": trans + transB,
-			"depth":  map[string]any{"scaleA": rows, "scaleB": covB["scenarios"]},
-			"scaleA": map[string]any{"B": pb.B, "states": states, "transitions": trans, "range_iterators": ranges, "underfull_nodes_seen": underfull, "wall_s": wallA, "exhaustive_to_depth": exA},
+			"depth": map[string]any{"scaleA": rows, "scaleB": covB["scenarios"]},
+			"scaleA": map[string]any{"B": pb.B, "states": states, "transitions": trans, "range_iterators": ranges, "underfull_nodes_seen": underfull, "wall_s": wallA, "exhaustive_to_depth": exA,
+				"continuations": tailsOf(rows), "rebalancing_steps": histA.hist},
 			"scaleB": covB,
 		})
 }
@@ -253,10 +302,11 @@ func ChildC23(sink Sink) map[string]any {
 		return map[string]any{}
 	}
 	scs = append(scs, inner...)
-	rows, states, trans, ranges, underfull, ex := runScenarios(sink, c23Opts(scs), nil)
+	hs := newHistSink(sink)
+	rows, states, trans, ranges, underfull, ex := runScenarios(hs, c23Opts(scs), nil)
 	if len(rows) > 0 {
 		sink.Sample(map[string]any{"scale": "B (B=32)", "example_scenario": rows[len(rows)-1]})
 	}
 	return map[string]any{"B": pb.B, "states": states, "transitions": trans, "range_iterators": ranges, "underfull_nodes_seen": underfull,
-		"exhaustive_to_depth": ex, "scenarios": rows}
+		"exhaustive_to_depth": ex, "scenarios": rows, "continuations": tailsOf(rows), "rebalancing_steps": hs.hist}
 }
